@@ -201,6 +201,131 @@ def leak_suite(ctx, drv, conv, cases):
       ctx.violation('model-mismatch:leak', f"leaked-scope operations: implementation {o['results']}, model {m[1]['results']}", case, concrete=False)
 
 
+# ------------------------------------------------------------------------------------------------
+# return shape: (output, state) for every filter that `is not False`, the bare output for False
+# ------------------------------------------------------------------------------------------------
+
+import numpy as _np
+import jax as _jax
+import flax.linen as _nn
+from flax.core import scope as _core_scope
+from flax.core.frozen_dict import FrozenDict as _FrozenDict
+
+# label -> (python filter object, the same filter in the JSON form of the independent reference `in_filter_ref`)
+FILTER_FORMS = {
+  'false': (lambda: False, False),
+  'true': (lambda: True, True),
+  'name': (lambda: 'stats', 'stats'),
+  'absent-name': (lambda: 'zz9', 'zz9'),
+  'list': (lambda: ['stats', 'cache', 'inter'], ['stats', 'cache', 'inter']),
+  'deny-params': (lambda: _core_scope.DenyList('params'), {'deny': 'params'}),
+  'deny-true': (lambda: _core_scope.DenyList(True), {'deny': True}),
+  # not False, but falsy
+  'empty-list': (lambda: [], []),
+  'empty-tuple': (lambda: (), []),
+  'empty-set': (lambda: set(), []),
+  'empty-frozenset': (lambda: frozenset(), []),
+  'empty-str': (lambda: '', ''),
+}
+APIS = {'core': ['core.apply', 'core.init'],
+        'compact': ['Module.apply', 'nn.apply', 'Module.init_with_output', 'nn.init_with_output'],
+        'setup': ['Module.apply', 'nn.apply', 'Module.init_with_output', 'nn.init_with_output']}
+
+
+def _raw_call(R, api, mut, V, x, pair):
+  """the raw return value of one entry point; with `pair` the function's own output is itself a 2-tuple"""
+  key = S.the_key()
+  second = S.F32(7)
+  if api.startswith('core.'):
+    fn = (lambda scope, a: (R.fn(scope, a), second)) if pair else R.fn
+    if api == 'core.apply':
+      return _core_scope.apply(fn, mutable=mut)(S.unflatten_vars(V), x, rngs={'params': key})
+    return _core_scope.init(fn, mutable=mut)({'params': key}, x)
+  m = R.module
+  meth = (lambda mdl, a: (mdl(a), second)) if pair else (lambda mdl, a: mdl(a))
+  if api == 'Module.apply':
+    return m.apply(S.unflatten_vars(V), x, rngs={'params': key}, mutable=mut, **({'method': meth} if pair else {}))
+  if api == 'nn.apply':
+    return _nn.apply(meth, m, mutable=mut)(S.unflatten_vars(V), x, rngs={'params': key})
+  if api == 'Module.init_with_output':
+    return m.init_with_output({'params': key}, x, mutable=mut, **({'method': meth} if pair else {}))
+  return _nn.init_with_output(meth, m, mutable=mut)({'params': key}, x)
+
+
+def _canon_out(y, pair):
+  if pair:
+    if not (isinstance(y, tuple) and len(y) == 2):
+      return ('not-a-pair', type(y).__name__)
+    return (S.out_int(y[0]), S.out_int(y[1]))
+  if isinstance(y, (tuple, list, dict, _FrozenDict)):
+    return ('not-a-scalar', type(y).__name__)
+  return S.out_int(y)
+
+
+def return_shape_case(ctx, case):
+  """property oracle, model-free: mutable `is not False` -> (output, state) with state keys == the existing
+  collections matching the filter; mutable False -> the bare output"""
+  prog, style, api, label, pair = case['prog'], case['style'], case['api'], case['filter'], case['pair']
+  R = S.Rendered(prog, style)
+  x = _np.asarray(case['x'], S.F32)
+  V = case.get('vars') or {'cols': [], 'vars': []}
+  S.Guard.reset()
+  try:
+    ref = _raw_call(R, api, True, V, x, pair)
+  except Exception:
+    return
+  if S.Guard.peak >= S.LIMIT or not (isinstance(ref, tuple) and len(ref) == 2 and isinstance(ref[1], (dict, _FrozenDict))):
+    return
+  ref_out, existing = _canon_out(ref[0], pair), set(ref[1].keys())
+  mk, fj = FILTER_FORMS[label]
+  S.Guard.reset()
+  try:
+    res = _raw_call(R, api, mk(), V, x, pair)
+  except Exception as e:
+    ctx.count('return_shape', 'raised:' + S.classify(e))  # e.g. a write into a collection the filter leaves immutable
+    return
+  if S.Guard.peak >= S.LIMIT:
+    return
+  ctx.case(case)
+  ctx.count('return_shape', api + ':' + label + (':pair' if pair else ''))
+  if label == 'false':
+    got = _canon_out(res, pair)
+    if got != ref_out:
+      ctx.violation('return-shape:false-not-bare', f'{api}(mutable=False) must return the bare output {ref_out}, got {got}', case)
+    return
+  shape_ok = isinstance(res, tuple) and len(res) == 2 and isinstance(res[1], (dict, _FrozenDict))
+  if not shape_ok:
+    what = f'a {type(res).__name__}' + (f' whose second item is a {type(res[1]).__name__}' if isinstance(res, tuple) and len(res) == 2 else '')
+    ctx.violation('return-shape:not-output-state-pair', f'{api}(mutable={mk()!r}) — a filter that is not False — must return (output, state); it returned {what}', case)
+    return
+  want = {c for c in existing if S.in_filter_ref(fj, c)}
+  if set(res[1].keys()) != want:
+    ctx.violation('return-shape:state-keys', f'{api}(mutable={mk()!r}) returned collections {sorted(res[1].keys())}, the existing collections matching the filter are {sorted(want)}', case)
+  elif _canon_out(res[0], pair) != ref_out:
+    ctx.violation('return-shape:output-differs', f'{api}(mutable={mk()!r}) returned output {_canon_out(res[0], pair)}, with everything mutable it is {ref_out}', case)
+
+
+def return_shape_suite(ctx, n):
+  rng = ctx.rng
+  for i in range(n):
+    prog = S.gen_prog(rng, flavour=rng.choice(['decl_only', 'decl_only', 'decl_first', 'core_ok', 'mixed']))
+    for style in S.styles_for(prog):
+      if any(st['op'] == 'nested' for st in S.walk(prog)):
+        continue
+      R = S.Rendered(prog, style)
+      x = rng.randrange(-2, 3)
+      o0 = S.run_scenario(R, {'kind': 'init', 'prog': prog, 'style': style, 'mutable': True, 'x': x, 'rngs': True})
+      if o0['peak'] >= S.LIMIT or o0['result'][0] != 'ok' or o0['result'][3]:
+        continue
+      V = o0['result'][2]
+      for label in FILTER_FORMS:
+        api = rng.choice(APIS[style])
+        case = {'kind': 'return-shape', 'prog': prog, 'style': style, 'api': api, 'filter': label, 'pair': rng.random() < 0.5, 'x': x}
+        if api.endswith('apply'):
+          case['vars'] = V
+        return_shape_case(ctx, case)
+
+
 def run_programs(ctx, drv, conv, progs):
   scs, obs_list = [], []
   for prog in progs:
@@ -257,6 +382,9 @@ def _form(j):
 def run_case(ctx, drv, conv, case):
   """replays one stored scenario (corpus / replay file)"""
   sc = dict(case)
+  if sc.get('kind') == 'return-shape':
+    return_shape_case(ctx, sc)
+    return
   if sc.get('leak'):
     leak_suite(ctx, drv, conv, [sc])
     return
@@ -294,6 +422,8 @@ def run(ctx):
   restore = [S.gen_restore_prog(ctx.rng) for _ in range(50 if not thorough else 600)]
   ctx.count('streams', 'restore', len(restore))
   run_programs(ctx, drv, conv, restore)
+  # return shape of every entry point for every kind of filter (incl. falsy-but-not-False ones), output a scalar or a pair
+  return_shape_suite(ctx, 35 if not thorough else 400)
   # nested applies inside a module body, under every outer capture setting
   nested = [S.gen_nested_prog(ctx.rng) for _ in range(60 if not thorough else 700)]
   ctx.count('streams', 'nested', len(nested))
